@@ -42,8 +42,14 @@ META = dict(
          "options, all roots and every fuel at which the model returns, every NonTerminal of every returned diagram "
          "names a returned diagram - proved by an invariant over the whole conversion (every NonTerminal carries the "
          "custom name of an extracted or pending element; a returning call leaves no new pending element); partial "
-         "only in that hypothesis, which dangling_link_witness shows is needed. "
-         "no_empty_placeholder, root_first, tokens_covered are NOT proved in "
+         "only in that hypothesis, which dangling_link_witness shows is needed. root_first_partial: for ALL grammars, "
+         "options and returning fuels, if the root is custom-named and worth extracting, shown, and its custom name "
+         "is carried by no other element and is not '...' (decidable rootFirstHyp), the output is non-empty and its "
+         "first diagram is the root's (invariant: the root is registered exactly once with index 1, every other "
+         "element gets an index >= 2, diagram keys are distinct); partial: unnamed roots off every cycle and "
+         "custom-named roots with only leaf children are first too but are not covered; the two registered "
+         "root witnesses violate the hypothesis. "
+         "no_empty_placeholder, tokens_covered are NOT proved in "
          "general: they are decided by the oracle on the real code over generated grammars and by the "
          "model-vs-code correspondence.",
     note="Trusted: Lean kernel; axioms propext/Classical.choice/Quot.sound; the transcription of "
@@ -70,6 +76,7 @@ THEOREMS = [
     "PP.Diagram.root_not_first_witness",
     "PP.Diagram.named_cycle_ok",
     "PP.Diagram.links_resolve_partial",
+    "PP.Diagram.root_first_partial",
 ]
 
 STUB_DIR = Path(__file__).resolve().parent.parent / "railroad_stub"
